@@ -139,8 +139,11 @@ func (e *Encoder) encode(rv reflect.Value) error {
 		if rv.Type().Elem().Kind() == reflect.Uint8 {
 			if rk == reflect.Array {
 				// Bytes panics on unaddressable array (and on any array before go1.19) -> copy
+				// (element-wise: reflect.Copy refuses arrays of a named byte type)
 				bv := make([]byte, rv.Len())
-				reflect.Copy(reflect.ValueOf(bv), rv)
+				for i := range bv {
+					bv[i] = byte(rv.Index(i).Uint())
+				}
 				return e.encodeByteArray(bv)
 			}
 			return e.encodeByteArray(rv.Bytes())
